@@ -308,6 +308,20 @@ fn check_reported(out: &mut Outcome, entry: &str, target: &str, o: &Offset, want
             out.fail("report.mode", format!("{}|{}|{}", entry, target, w), format!("{}: {} was asked for mode {} but reported {:?}", context, entry, w, o));
         }
     }
+    // the printed form of a reported cursor (what STAM CSV and the offset notation of STAMQL carry) reads back as
+    // the same cursor
+    for c in [&o.begin, &o.end] {
+        out.checks += 1;
+        let printed = c.to_string();
+        let back: Option<Result<Cursor, String>> = catch(|| Cursor::try_from(printed.as_str()).map_err(|e| err_name(&e))).ok();
+        if back != Some(Ok(*c)) {
+            out.fail(
+                "report.string",
+                format!("{}|{}", if matches!(c, Cursor::EndAligned(_)) { "end-aligned" } else { "begin-aligned" }, if printed == "-0" || printed == "0" { "zero" } else { "nonzero" }),
+                format!("{}: {} reported the cursor {:?}; it is printed as {:?}, which reads back as {:?}", context, entry, c, printed, back),
+            );
+        }
+    }
     let got = oracle_range(&b, &e, plen);
     if got != Some(rel) {
         out.fail(
@@ -648,6 +662,63 @@ impl Property for C04 {
                         Ok(Err(err)) => {
                             if want_text.is_some() {
                                 out.fail("accept", format!("{}|{}|{}", tbo.0, mode, class), format!("{}: {} refused a valid offset ({}) with {}", context, tbo.0, class, err));
+                            }
+                        }
+                    }
+                }
+            }
+
+            // ---- the same cursors against the resource, now that the store holds annotations -------------
+            // (the resource's position index is empty while the first link is probed above: code that consults
+            // it - utf8byte, the text selection lookup - takes other branches once earlier links were accepted)
+            if parent_handle.is_some() {
+                out.label("resource.populated");
+                let store = &store;
+                let resource = store.resource("r").expect("resource");
+                let (rb, re) = resolve_link(link, n);
+                let roffset = stam_offset(&rb, &re);
+                let rmode = mode_name(&rb, &re);
+                let rexpected = oracle_range(&rb, &re, n);
+                let rclass = match rexpected {
+                    Some(r) => valid_shape(r, n),
+                    None => invalid_class(&rb, &re, n),
+                };
+                if rexpected.is_none() {
+                    out.label("resource.populated.rejected");
+                }
+                let rcontext = format!("text={:?} link#{} after {} accepted annotations, offset on the resource=({:?},{:?})", case.text, i, accepted.len(), rb, re);
+                let want_text = rexpected.map(|r| slice(&text, r));
+                let probes: Vec<(&'static str, Result<Result<(Option<(usize, usize)>, String), String>, PanicInfo>)> = vec![
+                    (
+                        "text_by_offset.resource.populated",
+                        catch(|| resource.text_by_offset(&roffset).map(|s| (None, s.to_string())).map_err(|e| err_name(&e))),
+                    ),
+                    (
+                        "findtext.resource.populated",
+                        catch(|| resource.textselection(&roffset).map(|t| (Some((t.begin(), t.end())), t.text().to_string())).map_err(|e| err_name(&e))),
+                    ),
+                ];
+                for (entry, res) in probes {
+                    out.checks += 1;
+                    match res {
+                        Err(p) => out.fail("panic", format!("{}|{}", entry, p.signature()), format!("{}: {} panicked at {}:{}: {}", rcontext, entry, p.file, p.line, p.msg)),
+                        Ok(Ok((range, t))) => match (&want_text, rexpected) {
+                            (Some(w), Some(r)) => {
+                                if range.is_some() && range != Some(r) {
+                                    out.fail("text", format!("{}|range", entry), format!("{}: {} returned {:?} expected {:?}", rcontext, entry, range, r));
+                                } else if &t != w {
+                                    out.fail("text", format!("{}|text", entry), format!("{}: {} returned text {:?} expected {:?}", rcontext, entry, t, w));
+                                }
+                            }
+                            _ => out.fail(
+                                "reject",
+                                format!("{}|{}|{}", entry, rmode, rclass),
+                                format!("{}: {} accepted an offset that is not a range 0<=b<=e<={} ({}) and returned {:?}", rcontext, entry, n, rclass, t),
+                            ),
+                        },
+                        Ok(Err(err)) => {
+                            if rexpected.is_some() {
+                                out.fail("accept", format!("{}|{}|{}", entry, rmode, rclass), format!("{}: {} refused a valid offset ({}) with {}", rcontext, entry, rclass, err));
                             }
                         }
                     }
